@@ -1,6 +1,6 @@
 """C02 — End to end, the master's picture converges to the outstation's database (PARTIAL).
 
-Two parts:
+Three parts (the third ties the first two together):
   * logic (proof): coq/System/Pair.v is an abstract composition of the per-layer guarantees proved
     elsewhere (C06/C08, C09/C10, C11, C03, C15, C17 become the step rules of an abstract outstation
     database + event queue + master view); coq/System/PairProofs.v proves, for ALL runs of that
@@ -9,8 +9,15 @@ Two parts:
     crate that uses dnp3's PUBLIC API only (no hook): outstation TCP server, master TCP client, and
     between them a byte-level proxy that re-chunks the stream, cuts both connections (on demand or at
     a byte offset) and corrupts single bytes; multi-thread tokio runtime, real time.  The oracle below
-    checks the three clauses DIRECTLY on the recorded trace.  There is no extracted model run for
-    this engine (meta impl_only).
+    checks the three clauses DIRECTLY on the recorded trace.
+  * trace abstraction (engine `pairabs`, tools/props/c02abs.py): every recorded real run is mapped to a
+    label list of System/Pair.v plus what the real trace showed at every label, and the acceptance
+    function `explain` EXTRACTED from coq/System/PairTrace.v must accept it ("the real run is a run of the
+    abstract system"); theorems C02_explained_* (System/PairTraceProofs.v) say what acceptance gives.
+    The "model trace" of a script is the verdict of that function; the "implementation trace" is
+    compared with it through `canon` (the verdict an explained run must get), so a run that cannot be
+    explained is a model/impl mismatch, reported as the broken correspondence
+    `correspondence-pair-abstraction`.
 
 The implementation side is another binary than dnp3's test build, so this module carries its own
 build-and-run code (as c20.py does) and installs it in place of propcheck.run_cases for C02 only.
@@ -51,9 +58,10 @@ orders that hold in every schedule:
     update a unique time stamp (octet strings: unique leading octets).
 What the run cannot show: schedules and byte offsets that were not sampled; it is a test of the real
 stack, the universally quantified part of C02 is the theorem about the abstraction."""
-import hashlib, json, os, shutil, struct, subprocess
+import hashlib, json, os, shutil, struct, subprocess, sys
 import propcheck
 from propcheck import *
+import c02abs
 
 PAIR_DIR = os.path.join(VERIF, "pairtest")
 TARGET_PAIR = os.path.join(CACHE, "target_pair")
@@ -185,8 +193,59 @@ def c02_run_cases(prop, cases, tag):
         _pair_bin = None
         impl = run_pair_shards([c.script for c in cases], work, tag + "_again")
         prop.totals["built_from"] = _built_from
-    model = {c.sid: ["n/a (impl_only: the clauses are checked directly on the trace of the real stack)"] for c in cases}
+    model = pair_abstraction(prop, cases, impl, tag)
     return impl, model
+
+
+def pair_abstraction(prop, cases, impl, tag):
+    """every real run must be a run of coq/System/Pair.v: map the trace to labels and observations
+    (c02abs.abstract, with the search for the places the trace does not fix), run the EXTRACTED acceptance
+    function on them (engine pairabs) and return its verdict as the model trace; prop.expected holds, per
+    implementation trace, the verdict of an explained run."""
+    me = sys.modules[__name__]
+    st = prop.abstraction
+    scripts, model = [], {}
+    for c in cases:
+        it = impl.get(c.sid, ["missing"])
+        key = trace_hash(it)
+        if any(l.startswith(("harness-died", "missing", "unknown-engine", "setup-error", "script-hard-timeout")) for l in it):
+            prop.expected[key] = model[c.sid] = ["not abstracted: the harness did not complete the script (the oracle reports it)"]
+            continue
+        try:
+            a = c02abs.abstract(c.script, it, me)
+        except Exception as e:       # a trace the mapping cannot read is not an explained run
+            prop.expected[key] = ["explained"]
+            model[c.sid] = ["unexplained correspondence-pair-abstraction: the mapping failed on this trace: %r" % (e,)]
+            st["runs"] += 1
+            st["unexplained_runs"].append(c.sid)
+            continue
+        prop.expected[key] = c02abs.expected_verdict(a)
+        c.meta["abstraction"] = {"labels": len(a["labels"]), "placements_searched": a["placements"],
+                                 "search_found_explanation": a["mirror_explained"], "first_unexplained": a["first_unexplained"]}
+        st["runs"] += 1
+        st["labels"] += len(a["labels"])
+        st["placements_searched"] += a["placements"]
+        st["runs_needing_search"] += 1 if a["placements"] > a["items"] else 0
+        for lab, _ in a["labels"]:
+            st["label_kinds"][lab[0]] = st["label_kinds"].get(lab[0], 0) + 1
+        scripts.append((c, c02abs.engine_script(c.sid, a)))
+    if scripts:
+        work = os.path.join(WORK, prop.id, "abs_p%d" % os.getpid())
+        try:
+            out = run_model_shards([s for _, s in scripts], work, tag)
+        finally:
+            shutil.rmtree(work, ignore_errors=True)
+        for c, _ in scripts:
+            v = out.get(c.sid, ["missing"])
+            model[c.sid] = v
+            if v == prop.expected[trace_hash(impl.get(c.sid, ["missing"]))]:
+                st["explained_runs"] += 1
+                if len(v) == 3:
+                    st["explained_runs_quiescent_shape"] += 1
+            else:
+                st["unexplained_runs"].append(c.sid)
+                c.meta["abstraction"]["verdict"] = v
+    return model
 
 
 _orig_run_cases = propcheck.run_cases
@@ -195,7 +254,7 @@ _orig_run_cases = propcheck.run_cases
 def _dispatch_run_cases(prop, cases, tag):
     if getattr(prop, "id", None) == "C02":
         for c in cases:
-            c.meta["impl_only"] = True
+            c.meta["impl_only"] = False      # the model trace is the verdict of the abstraction check
         return c02_run_cases(prop, cases, tag)
     return _orig_run_cases(prop, cases, tag)
 
@@ -570,20 +629,52 @@ def analyse(script, trace):
 class C02(Prop):
     id = "C02"
     translators = []
-    proof_targets = ["System/PairProofs.vo"]
+    proof_targets = ["System/PairProofs.vo", "System/PairTraceProofs.vo"]
     property_file = "Properties/C02.v"
     theorems = []
     modelled = ("C02 is PARTIAL: the theorems are about the abstract composition coq/System/Pair.v, whose step rules are "
                 "the per-layer guarantees (C06/C08, C09/C10, C11, C03, C15, C17), not about the Rust code; the real "
                 "multi-threaded scheduling, TCP, the reconnect timing and the tokio runtime are NOT modelled: they are "
                 "sampled by the end-to-end run of the real stack (/verif/pairtest, public API, loopback TCP through a "
-                "re-chunking / cutting / corrupting proxy), whose trace is checked directly by the oracle")
+                "re-chunking / cutting / corrupting proxy), whose trace is checked directly by the oracle; the tie between "
+                "the two is the trace abstraction: every recorded run must be accepted by the function `explain` extracted "
+                "from coq/System/PairTrace.v as a run of the abstract system (theorems C02_explained_*: then the oracle's "
+                "clauses follow from the theorems about all abstract runs)")
     extra_assumptions = ["trusted for the end-to-end part: /verif/pairtest (handlers, proxy, trace order = order of a "
-                         "process-wide mutex), the ledger replay in tools/props/c02.py, loopback TCP of the sandbox kernel"]
+                         "process-wide mutex), the ledger replay in tools/props/c02.py, loopback TCP of the sandbox kernel",
+                         "trusted for the trace abstraction: tools/props/c02abs.py (which trace lines become which label and "
+                         "observation, the admissible places of the labels the trace does not fix; its Python mirror of `step` only "
+                         "prunes the search, the verdict is the extracted function's), ocaml/eng_pairabs.ml (script reader)"]
 
     def __init__(self):
         self.totals = {}
         self.scripts_run = 0
+        self.expected = {}       # trace hash -> verdict of the abstraction check when the run is explained
+        self.abstraction = {"runs": 0, "explained_runs": 0, "explained_runs_quiescent_shape": 0, "unexplained_runs": [],
+                            "labels": 0, "placements_searched": 0, "runs_needing_search": 0, "label_kinds": {}}
+
+    def canon(self, lines, side):
+        """correspondence of engine `pair` with the abstract system: the implementation trace stands for the
+        verdict an explained run gets, the model trace is the verdict of the extracted acceptance function"""
+        if side == "impl":
+            return self.expected.get(trace_hash(lines), ["no abstraction of this trace was made"])
+        return lines
+
+    def broken_correspondences(self):
+        u = self.abstraction["unexplained_runs"]
+        if not u:
+            return []
+        return [("correspondence-pair-abstraction",
+                 "%d of %d recorded runs of the real stack are NOT runs of coq/System/Pair.v (the extracted PairTrace.explain "
+                 "rejects every label placement found by the search): %s; see the MISMATCH lines (model = verdict with the first "
+                 "label whose abstract effect differs from what the trace shows)" % (len(u), self.abstraction["runs"], ", ".join(u[:8])))]
+
+    def coverage_extra(self):
+        a = dict(self.abstraction)
+        a["what"] = ("trace abstraction: runs of the real stack accepted by the extracted PairTrace.explain as runs of System/Pair.v; "
+                     "placements_searched = label placements tried by the search over the places the trace does not fix "
+                     "(response formed somewhere before its delivery, transaction between its marker and its updinfo line, late confirm)")
+        return {"pair_abstraction": a}
 
     @property
     def rule(self):
@@ -600,8 +691,9 @@ class C02(Prop):
                 "held before the delivery, of that point and type; static values not older than the end of the master's "
                 "previous request), events (every created, not overflow-discarded event reached the handler; no event "
                 "released before it was delivered), no panic, quiescence within 10 s. non-trivial = an event delivered and a "
-                "cut survived (reconnected) and quiesced. totals over this run: %s"
-                % json.dumps(self.totals, sort_keys=True))
+                "cut survived (reconnected) and quiesced. Correspondence: every run mapped to labels of System/Pair.v and accepted by "
+                "the extracted PairTrace.explain (engine pairabs). totals over this run: %s; trace abstraction: %s"
+                % (json.dumps(self.totals, sort_keys=True), json.dumps(self.abstraction, sort_keys=True)))
 
     # ---- case generation -------------------------------------------------------------------------
 
@@ -737,7 +829,7 @@ class C02(Prop):
             ops.append(["wait", rng.choice([0, 10, 100])])
         ops.append(["quiesce"])
         return Case(sid, script_text(sid, "pair", cfg, ops),
-                    {"impl_only": True, "kind": "%s-unsol%d" % (kind, cfg["unsol"]), "nops": len(ops)})
+                    {"kind": "%s-unsol%d" % (kind, cfg["unsol"]), "nops": len(ops)})
 
     def cases(self, rng, tier):
         d = os.path.join(VERIF, "replays", self.id)
@@ -770,7 +862,6 @@ class C02(Prop):
         return case.meta["_fails"], case.meta["stats"]
 
     def oracle(self, case, impl):
-        case.meta["impl_only"] = True
         return list(self._analyse(case, impl)[0])
 
     def nontrivial(self, case, impl):
